@@ -19,6 +19,9 @@ import beanquery  # noqa: E402
 
 PROP = 'C09'
 D = world.D
+# results that depend on what the process executed earlier violate this property even when every operation
+# agrees with its in-process reference (see driver.find_cross_execution_dependence)
+CROSS_EXECUTION_IS_VIOLATION = True
 RULE = ('one run = one seeded history (<= 3 clients x <= 25 ops, explicit schedule) of exec_text / parse / exec_ast / '
         'executemany / fold-pair / register / unregister operations on one shared connection over a generated ledger and '
         'harness tables, with nested re-entrant executions and injected faults (storage error mid-scan, user-function error, '
